@@ -19,7 +19,8 @@ def r4(x):
     return round(x, 4)
 
 
-def gen_asset_rows(rng, day0, n_bdays, style="ugly", low_priced=False, vol=None, late=0, weekend_rows=False):
+def gen_asset_rows(rng, day0, n_bdays, style="ugly", low_priced=False, vol=None, late=0, weekend_rows=False,
+                   jump_p=0.0):
     """Dense rows for business days day0.. (n_bdays of them), starting `late` business days in."""
     if vol is None:
         vol = rng.choice([0.005, 0.01, 0.02, 0.04])
@@ -32,6 +33,8 @@ def gen_asset_rows(rng, day0, n_bdays, style="ugly", low_priced=False, vol=None,
     k = 0
     while k < n_bdays:
         if is_bday(d) or (weekend_rows and rng.random() < 0.15):
+            if jump_p and rng.random() < jump_p:
+                p = p * rng.choice([0.15, 0.3, 0.5, 2.0, 3.5, 6.0])        # crash or melt-up overnight
             if k >= late or not is_bday(d):
                 o = p * math.exp(rng.gauss(0.0, vol / 2))
                 c = o * math.exp(rng.gauss(0.0, vol))
@@ -115,7 +118,7 @@ def inject_faults(rng, rows, faults, adjust, ctx_faults=None):
 
 
 def gen_market(rng, n_assets, day0, n_bdays, adjust=True, faults=(), styles=None, low_priced_p=0.2,
-               late_p=0.0, weekend_rows=False, adj_modes=("same", "same", "steps")):
+               late_p=0.0, weekend_rows=False, adj_modes=("same", "same", "steps"), jump_p=0.0):
     assets = {}
     applied = {}
     for i in range(n_assets):
@@ -125,7 +128,7 @@ def gen_market(rng, n_assets, day0, n_bdays, adjust=True, faults=(), styles=None
         if "late_start" in faults and rng.random() < max(late_p, 0.4) and n_bdays > 2:
             late = rng.randrange(1, max(2, n_bdays // 2))
         rows = gen_asset_rows(rng, day0, n_bdays, style=style, low_priced=rng.random() < low_priced_p,
-                              late=late, weekend_rows=weekend_rows)
+                              late=late, weekend_rows=weekend_rows, jump_p=jump_p)
         if not rows:
             rows = gen_asset_rows(rng, day0, n_bdays, style=style)
             late = 0
